@@ -90,6 +90,7 @@ type FuncSpec struct {
 	Where     string
 	External  bool
 	Assumed   map[string]bool // arithmetic obligations replaced by listed assumptions
+	Reveals   map[string]bool // opaque predicates whose definition this function's proof uses
 }
 
 type EventSpec struct {
@@ -107,6 +108,7 @@ type PredSpec struct {
 	Name    string
 	Params  []string
 	Clauses []*Clause
+	Opaque  bool // an uninterpreted application outside the functions that reveal it
 }
 
 type GhostDecl struct {
@@ -301,7 +303,7 @@ func (sp *Specs) parseSpecFile(path, pkg string) error {
 			curF, curL, curE, curFT = nil, nil, nil, nil
 			i := strings.Index(rest, "(")
 			j := strings.Index(rest, ")")
-			curP = &PredSpec{Pkg: pkg, Name: rest[:i]}
+			curP = &PredSpec{Pkg: pkg, Name: rest[:i], Opaque: strings.HasSuffix(strings.TrimSpace(rest), " opaque")}
 			for _, p := range strings.Split(rest[i+1:j], ",") {
 				if p = strings.TrimSpace(p); p != "" {
 					curP.Params = append(curP.Params, strings.Fields(p)[0])
@@ -388,6 +390,13 @@ func (sp *Specs) parseSpecFile(path, pkg string) error {
 			curF.Blocking = true
 		case kw == "may-diverge" && curF != nil:
 			curF.MayDiverge = true
+		case kw == "reveal" && curF != nil:
+			if curF.Reveals == nil {
+				curF.Reveals = map[string]bool{}
+			}
+			for _, w := range f[1:] {
+				curF.Reveals[w] = true
+			}
 		case kw == "wraps" && curF != nil:
 			for _, w := range f[1:] {
 				curF.Wraps[w] = true
